@@ -35,7 +35,12 @@ def parseTags (s : String) : Option Tags :=
       | _, _ => none
     | _ => none
 
-def addrBytes (s : String) : Bytes := if s == "nil" then b "<nil>" else b s
+/-- the address as the MODEL renders it (`ipv4` / `nilAddr`), from the harness's `a.b.c.d` / `nil` -/
+def addrBytes (s : String) : Bytes :=
+  if s == "nil" then nilAddr else
+  match (s.splitOn ".").map String.toNat? with
+  | [some a, some c, some d, some e] => ipv4 a c d e
+  | _ => b s
 
 def parseMember (s : String) : Option Member :=
   match s.splitOn "~" with
